@@ -23,6 +23,8 @@ func main() {
 		os.Exit(cmdCheck(os.Args[2:]))
 	case "facts":
 		os.Exit(cmdFacts(os.Args[2:]))
+	case "layout":
+		os.Exit(cmdLayout(os.Args[2:]))
 	case "mutants":
 		os.Exit(cmdMutants(os.Args[2:]))
 	case "list":
